@@ -67,8 +67,6 @@ QK = {'u3': (3, 1), 'u2': (2, 1), 'u1': (1, 1), 'cx': (0, 2), 'id': (0, 1), 'u':
 BQ_ONLY = {'b': (0, 2), 'ecr': (0, 2), 'iswap': (0, 2), 'sqisw': (0, 2), 'syc': (0, 2), 'cs': (0, 2), 'ct': (0, 2), 'iccx': (0, 3),
            'ryy': (1, 2), 'ccp': (1, 3), 'fsim': (2, 2), 'cu2': (2, 2), 'u1q': (2, 1), 'xx': (0, 2), 'yy': (0, 2), 'zz': (0, 2),
            'v': (0, 1), 'cv': (0, 2)}
-# round trip: description name -> constructor (every class in bqskit.ir.gates that carries a `_qasm_name`, see rt_library)
-RT_EXTRA = {'diag': (3, 2), 'st': (0, 1), 'pxz': (3, 1)}
 
 
 # =============================================================================== trees
@@ -105,10 +103,6 @@ def arg(r, i=-1):
 
 def app(g, p, q):
     return {'k': 'app', 'g': g, 'p': p, 'q': q, 'c': []}
-
-
-def level(e):
-    return {'add': 1, 'sub': 1, 'mul': 2, 'div': 2, 'neg': 3, 'pow': 4}.get(e['k'], 5)
 
 
 # ------------------------------------------------------------------------------- printer (trusted; cross-checked by Qiskit)
@@ -210,6 +204,10 @@ def _mirror(e, env):
             raise _Bad
         return None
     v, u = _mirror(e['x'], env), _mirror(e['y'], env)
+    if k == 'div' and (u is None or (not u[0] and not u[1])):
+        raise _Bad                # no division by zero or by a function value (which may be zero)
+    if k == 'pow' and (v is None or u is None):
+        raise _Bad
     if v is None or u is None:
         return None
     if k == 'add':
@@ -354,7 +352,7 @@ class Gen:
                 cands = [k for k, v in avail.items() if v[1] <= gq]
                 g = r.choice(cands) if r.random() < 0.6 or not gates else r.choice([x['name'] for x in gates if x['nq'] <= gq] or cands)
                 body.append({'g': g, 'p': [self.expr(np_, p) for _ in range(avail[g][0])], 'q': r.sample(range(1, gq + 1), avail[g][1])})
-            name = 'g%d' % gi if r.random() < 0.7 else ['mygate', 'rot_a', 'Ent2'][gi]
+            name = 'g%d' % gi if r.random() < 0.7 else ['mygate', 'rot_a', 'ent_2'][gi]
             gates.append({'name': name, 'np': np_, 'nq': gq, 'body': body})
             avail[name] = (np_, gq)
         stmts = []
